@@ -116,6 +116,77 @@ Theorem C08_pinned_summaries_disciplined_partial : discipline_ok summaries table
 Proof. vm_compute. reflexivity. Qed.
 Print Assumptions C08_pinned_summaries_disciplined_partial.
 
+(* The generated-fact obligations cover what the property text names.  Any-thread operations: each has the contract
+   `any` in the committed table and a summary extracted from the current sources, i.e. it is a root of the analysis
+   (TcpServer::start is documented thread-safe but fails fast off-thread - F-12 - and is listed with the confined
+   operations of the fail-fast suite instead; BlockingQueue/BoundedBlockingQueue are header templates, summarised
+   from the instantiation harness/C08_templates.cc; the LOG_* macros are Logger's constructor/destructor). *)
+Theorem C08_named_anythread_ops_covered :
+  forallb (anythread_op_covered table summaries) named_anythread_ops = true.
+Proof. vm_compute. reflexivity. Qed.
+Print Assumptions C08_named_anythread_ops_covered.
+
+(* Confined operations: loop(), updateChannel/removeChannel, pool start / getNextLoop / getLoopForHash,
+   connectEstablished / connectDestroyed have `assertInLoopThread()` as their first statement in the current sources
+   (no waiver) - so by C08_confined_fail_fast a call from any thread but the owner ends in abort before any member is
+   touched.  The forked children of bin/check C08 (one per operation) observe the SIGABRT. *)
+Theorem C08_named_confined_ops_fail_fast :
+  forallb (confined_op_failfast table summaries table_waivers) named_confined_ops = true.
+Proof. vm_compute. reflexivity. Qed.
+Print Assumptions C08_named_confined_ops_fail_fast.
+
+Theorem C08_failfast_checked : forall T S wv, discipline_ok S T wv = true ->
+  forall m, In m S -> contract_of T (m_class m) (m_name m) = Some (CLoop FFDirect) ->
+    m_check_first m = true \/
+    exists w, In w wv /\ v_class w = m_class m /\ v_site w = m_name m /\ v_kind w = "nofailfast"%string.
+Proof. exact failfast_checked. Qed.
+Print Assumptions C08_failfast_checked.
+
+(* Teardown.  A destructor that joined the object's thread is ordered after everything that thread did (this is what
+   the `teardown` contract of the table rests on) ... *)
+Theorem C08_teardown_after_join : forall tr q t u i j a b,
+  wf_trace tr -> nth_error tr q = Some (EJoin t u) ->
+  nth_error tr i = Some a -> thread_of a = u ->
+  nth_error tr j = Some b -> thread_of b = t -> q < j ->
+  hb tr i j.
+Proof. exact teardown_after_join. Qed.
+Print Assumptions C08_teardown_after_join.
+
+(* ... and one that did not is not: the object's thread updates a mutex's bookkeeping inside its last critical
+   section, the destructor destroys the mutex without join and without the lock - a well-formed trace with a
+   conflicting pair unordered by happens-before (~EventLoopThread after its unlocked read of loop_ returned NULL). *)
+Theorem C08_teardown_without_join_refuted :
+  exists tr i j, wf_trace tr /\ conflicting tr i j /\ ~ hb tr i j /\ ~ hb tr j i /\
+                 (forall q t u, nth_error tr q <> Some (EJoin t u)).
+Proof. exact teardown_without_join_races. Qed.
+Print Assumptions C08_teardown_without_join_refuted.
+
+(* the static teardown rule is part of the obligation: a synchronisation member destroyed while the object's thread
+   may still use it is a recorded finding *)
+Theorem C08_teardown_checked : forall T S wv, discipline_ok S T wv = true ->
+  forall m d f ln, In m S -> m_dtor m = Some d -> In (f, ln) (d_destroys d) ->
+    mem f (unjoined_uses (thread_roots T S (m_class m)) (d_join d)) = true ->
+    exists w, In w wv /\ v_class w = m_class m /\ v_site w = m_name m /\ v_what w = f /\ v_kind w = "destroy"%string.
+Proof. exact teardown_checked. Qed.
+Print Assumptions C08_teardown_checked.
+
+(* Use after release (F-4).  An atomic exit flag orders what precedes its store before the owner's teardown - not what
+   follows it: the caller of quit() stores the flag (hb-before the owner's destruction of the object: hb tr 0 2) and then
+   still uses the object; that use and the destruction are a conflicting pair unordered by happens-before. *)
+Theorem C08_use_after_release_refuted :
+  exists tr i j, wf_trace tr /\ conflicting tr i j /\ ~ hb tr i j /\ ~ hb tr j i /\ hb tr 0 2.
+Proof. exact use_after_release_races. Qed.
+Print Assumptions C08_use_after_release_refuted.
+
+(* the static rule is part of the obligation: whatever an any-thread method uses after storing an exit flag of its class
+   (lib/C08_table.txt: exitflag EventLoop quit_) is a recorded finding *)
+Theorem C08_useafter_checked : forall T S wv, discipline_ok S T wv = true ->
+  forall m g f, In m S -> contract_of T (m_class m) (m_name m) = Some CAny ->
+    In (m_class m, g) (t_exitflags T) -> In f (assoc_tail g (m_tails m)) ->
+    exists w, In w wv /\ v_class w = m_class m /\ v_site w = m_name m /\ v_what w = f /\ v_kind w = "useafter"%string.
+Proof. exact useafter_checked. Qed.
+Print Assumptions C08_useafter_checked.
+
 (* every recorded finding is still present (a waiver that no longer matches anything must be removed) - NOT a theorem:
    a repaired tree must not raise an alarm; bin/check reports stale waivers as a note. *)
 
